@@ -3,6 +3,7 @@ from ..rules_tables import Tables, grammar, T4_edges, T8_header, T9_group_facts
 from ..rules_flow import Flow
 from ..rules_gate import W8_info, K1_loader, W10_requested_file, K20_mub_record
 from ..rules_tomo import W9_pairing
+from ..rules_conv import U1_defined_attributes
 
 
 def run(tree, rep, tier):
@@ -22,6 +23,7 @@ def run(tree, rep, tier):
     K1_loader(rep, flow, T, tier, mode="exact", api=("mub_circuits.get_mub_circuits",))
     W9_pairing(rep, flow)
     K20_mub_record(rep, flow, T)
+    U1_defined_attributes(rep, flow, ['circuit_lookup'])
     rep.decided += ["2^n+1 basis lines of n Pauli strings each (T7)", "every basis commuting and independent; the bases partition the 4^n-1 non-identity Paulis (T9, exhaustive arithmetic on the literals)",
                     "header = (sum, max, max depth) of the file's circuits (T8)", "each MUB accessor reads the file named by its own (num_qubits, connectivity), in this order (W10)", "info API wired to the right header fields and 2^n+1 (W8)",
                     "the two returned lists are built pairwise from the same lines and returned unpermuted (W9)",
